@@ -28,7 +28,7 @@ ASSUMPTIONS = [
     "bounded progress: a run in which no task starts, finishes or is delivered for 45 s is reported as non-termination; a run killed by the outer watchdog while still progressing is inconclusive",
     "the explicit-state model clause of the quantifier is NOT decided (different technique); schedule diversity from the grid and delay injection stands in, distinct interleavings are reported",
 ]
-FLOORS = {"quick": {"runs": 40, "delivered": 300, "retirements": 5, "failed_tasks_delivered": 5, "distinct:interleavings": 15, "network_error_tasks": 14, "retirement_waves_held_back": 1, "runs_with_tuple_ids": 2},
+FLOORS = {"quick": {"runs": 40, "delivered": 300, "retirements": 5, "failed_tasks_delivered": 5, "distinct:interleavings": 15, "network_error_tasks": 14, "retirement_waves_held_back": 1, "runs_with_tuple_ids": 2, "runs_after_an_earlier_pool": 2},
           "thorough": {"runs": 500, "delivered": 3000, "retirements": 50, "failed_tasks_delivered": 50, "injected_delays": 500,
                        "distinct:interleavings": 150}}
 NPROC = {"quick": 8, "thorough": 16}
@@ -73,6 +73,9 @@ def grid(tier, seed):
     # a network error that is only the implicit context of the raised error is retried like a bare one
     base += [dict(n=10, pool=3, max_tasks=25, net_flaky_wrapped={"101": 1, "104": 3}, net_flaky={"102": 2}),
              dict(n=10, pool=1, max_tasks=25, net_flaky_wrapped={"101": 1, "104": 3}, api="run")]
+    # two pools in one process: the first one's callbacks (which know only its own ids) must not run for the second one
+    base += [dict(n=8, pool=2, max_tasks=25, prelude=4), dict(n=6, pool=1, max_tasks=25, prelude=3, prelude_pool=1, api="run"),
+             dict(n=8, pool=3, max_tasks=2, prelude=4, parent_cb=True, raising=[102])]
     runs += base
     nrand = 40 if tier == "quick" else 1500
     for i in range(nrand):
@@ -200,6 +203,12 @@ def judge(spec, res, acc):
     acc.count("network_error_tasks", len(net_fail) + len(spec.get("net_flaky", {})) + len(spec.get("net_flaky_wrapped", {})))
     if spec.get("tuple_ids"):
         acc.count("runs_with_tuple_ids")
+    if spec.get("prelude"):
+        acc.count("runs_after_an_earlier_pool")
+        pre = next((e for e in ev if e["k"] == "prelude"), None)
+        want_ids = [900 + i for i in range(spec["prelude"])]
+        if pre is not None and (pre["ok"] != want_ids or pre["failed"] or pre["payloads"] != sorted(str(["pre%d" % i]) for i in want_ids)):
+            acc.violation("C12/earlier-pool-wrong", "the first of two pools in one process did not deliver its own ids with the values its own callbacks produce", dict(w, prelude=pre))
 
     def want_orig(i):
         if i in set(spec.get("net_always", [])):
